@@ -3,7 +3,7 @@
 From Coq Require Import ZArith QArith Reals List Bool Arith.
 From BS Require Import Base.Arith Model.Term Model.Propensity Model.Interface Spec.RateLaws
                        Proofs.RateProofs Proofs.InterfaceProofs
-                       Base.CyPrelude Gen.PropensityGen Proofs.TiePropensity Proofs.TieRate.
+                       Base.CyPrelude Gen.PropensityGen Proofs.TiePropensity Proofs.TieRate Gen.IfaceGen Proofs.TieIface.
 Import ListNotations.
 Local Open Scope R_scope.
 
@@ -147,6 +147,22 @@ Theorem C01_source_hill :
      gen_NegativeProportionalHill ArithR oNP m x p V t = D * hill_neg kk KK nn (X / V)).
 Proof. exact source_hill_closed_forms. Qed.
 
+(* ... and the plain interface's four per-reaction loops (ModelCSimInterface.compute_*propensities) regenerated from simulator.pyx
+   (Gen/IfaceGen.v, tools/tr_iface.py): with the virtual call on the r-th propensity object instantiated by the model's evaluator of
+   the r-th propensity, each loop overwrites the caller's array with the hand model's compute_plain, whatever the array held. *)
+Theorem C01_source_interface_plain :
+  forall F (A : Arith F) (si : simif F) (x dest : list F) (V t : F),
+  length dest = length (si_props si) ->
+  gen_ModelCSimInterface_compute_propensities (fun r x p t => prop_eval A (nthp si r) Det x p V t) A (iface_obj si) x dest t
+    = compute_plain A si Det x V t /\
+  gen_ModelCSimInterface_compute_volume_propensities (fun r x p V t => prop_eval A (nthp si r) Vol x p V t) A (iface_obj si) x dest V t
+    = compute_plain A si Vol x V t /\
+  gen_ModelCSimInterface_compute_stochastic_propensities (fun r x p t => prop_eval A (nthp si r) Stoch x p V t) A (iface_obj si) x dest t
+    = compute_plain A si Stoch x V t /\
+  gen_ModelCSimInterface_compute_stochastic_volume_propensities (fun r x p V t => prop_eval A (nthp si r) StochVol x p V t) A (iface_obj si) x dest V t
+    = compute_plain A si StochVol x V t.
+Proof. exact @tie_iface_plain. Qed.
+
 (* Non-vacuity of the regenerated definitions: the same numbers as C01_example, computed by the source's own loops. *)
 Example C01_source_example :
   let x := [3; 5]%Q in let p := [2]%Q in
@@ -167,3 +183,4 @@ Print Assumptions C01_safe_scan_in_bounds.
 Print Assumptions C01_source_tie.
 Print Assumptions C01_source_massaction.
 Print Assumptions C01_source_hill.
+Print Assumptions C01_source_interface_plain.
